@@ -22,10 +22,11 @@ fn c12_data() -> gen::VS {
         1 => Just(json!({})),
         2 => gen::scalars(),
         2 => Just(json!({"b": null, "c": 0, "d": {"e": "deep"}})),
+        1 => Just(json!({"b": {"d": 2, "b": null}, "c": 1})),
         1 => Just(json!([null, 0, "x", [1, 2]])),
         1 => Just(json!("héllo")),
     ];
-    let obj = vec((select(vec!["a", "b", "c", "d", "0", "1", "a.b", "é", "k", "", "x\\y"]), member.clone()), 0..=6).prop_map(|kv| {
+    let obj = vec((select(vec!["a", "b", "c", "d", "0", "1", "a.b", "a.b", "é", "k", "", "x\\y"]), member.clone()), 0..=6).prop_map(|kv| {
         let mut m = Map::new();
         for (k, v) in kv {
             m.insert(k.to_string(), v);
@@ -37,7 +38,7 @@ fn c12_data() -> gen::VS {
 
 fn key_values() -> gen::VS {
     prop_oneof![
-        8 => select(vec!["", "a", "b", "c", "d", "0", "1", "a.b", "a\\.b", "é", "k", "zz", "a.b.c", "a.d.e", "a.c", "b.0", "b.3", "b.-1", "x\\\\y", "a.0", "nope", "2", "-1"]).prop_map(|s| json!(s)),
+        8 => select(vec!["", "a", "b", "c", "d", "0", "1", "a.b", "a\\.b", "é", "k", "zz", "a.b.c", "a\\.b.c", "a\\.b.d", "a.b.d", "a\\.b.b", "a.d.e", "a.c", "b.0", "b.3", "b.-1", "x\\\\y", "a.0", "nope", "2", "-1"]).prop_map(|s| json!(s)),
         2 => (-2i64..5).prop_map(gen::j),
         1 => Just(Value::Null),
     ]
@@ -260,7 +261,7 @@ fn check_rules(case: &Value, obs: &mut Obs) -> Result<(), String> {
 }
 
 fn gen_rules() -> BoxedStrategy<Value> {
-    let cfg = rules::Cfg::new(&["missing", "missing_some", "missing", "missing_some", "if", "merge", "var", "cat"]).keys(&["a", "b", "c", "d", "0", "1", "a.b", "k", "zz"]).poison(0).bad_arity(10);
+    let cfg = rules::Cfg::new(&["missing", "missing_some", "missing", "missing_some", "if", "merge", "var", "cat", "map", "filter"]).keys(&["a", "b", "c", "d", "0", "1", "a.b", "k", "zz"]).poison(0).bad_arity(10);
     gen::case2(rules::rooted(cfg), c12_data())
 }
 
@@ -282,7 +283,7 @@ fn check_state_sweep(case: &Value, obs: &mut Obs) -> Result<(), String> {
 }
 
 fn fixed_state_sweeps() -> Vec<Value> {
-    sweep_cases(2, 160)
+    sweep_cases(2, 300)
 }
 
 pub fn property() -> Property {
@@ -291,7 +292,7 @@ pub fn property() -> Property {
         subs: vec![
             Sub {
                 name: "state_sweep",
-                about: "accumulated state: for every W in 1..160 and each kind of keyed work of this operator family (distinct key lists for missing and missing_some), W hot items are evaluated twice, then a new item, the hot set again, another new item, and everything in reverse; every call against the reference model - a cache, pool or table with any capacity up to 160 is driven exactly over its boundary.",
+                about: "accumulated state: for every W in 1..300 and each kind of keyed work of this operator family (distinct key lists for missing and missing_some), W hot items are evaluated twice, then a new item, the hot set again, another new item, and everything in reverse; every call against the reference model - a cache, pool or table with any capacity up to 300 is driven exactly over its boundary.",
                 nontrivial: "every case.",
                 strategy: None,
                 fixed: Some(fixed_state_sweeps),
